@@ -60,6 +60,8 @@ def trees():
     out.append(("xor", ("or", LEAVES[0], LEAVES[32]), ("and", LEAVES[13], LEAVES[2])))
     out.append(("and", ("xor", LEAVES[0], LEAVES[13]), ("or", LEAVES[37], LEAVES[32])))
     # the always-true *callable* `null` (an ordinary condition, not the null condition) under or / xor / and
+    # equal_to_approx at its boundary (|d - v| == tolerance is not "approximately equal") and far from zero
+    out += [T.leaf("Value", "equal_to_approx", 1, 1), T.leaf("Value", "equal_to_approx", 2, 0.5), T.leaf("Value", "equal_to_approx", 2 ** 62)]
     vn = T.leaf("Value", "null")
     out += [("or", vn, LEAVES[0]), ("xor", vn, LEAVES[13]), ("xor", LEAVES[0], vn), ("and", vn, LEAVES[2]),
             ("or", ("xor", vn, LEAVES[0]), LEAVES[13])]
